@@ -124,7 +124,7 @@ CHECKS = {
             'the hand-written grammar the theorems are about; fingerprints of DEFAULT_ARG and the comment expression unchanged. '
             'Theorems (Parse/RoundTrip.v, Parse/RoundTripModule.v): C01_type_roundtrip - every well-formed type, printed, parses back to itself at any depth; '
             'C01_arglist_roundtrip / C01_function_roundtrip - argument lists of any length and whole function declarations; C01_items_roundtrip - a '
-            'whole FILE of functions and variables inside namespaces nested to any depth goes through Module.parseString (tab expansion, the 8-way longest-match alternation, repetition, StringEnd, '
+            'whole FILE of functions, variables and forward declarations inside namespaces nested to any depth goes through Module.parseString (tab expansion, the 8-way longest-match alternation, repetition, StringEnd, '
             'node constructors) and comes back as exactly those declarations, never "unsupported". Decided per input: (a) implementation '
             'tree = the declarations the generator rendered (kinds, names, nesting, types to any depth, template lists, default text, '
             'bases, flags), (b) model tree = implementation tree, in five layout styles; recorded findings by witness.',
